@@ -418,9 +418,11 @@ func c17purity(c *core.Ctx) {
 // ---------------- concurrency round ----------------
 
 // C17GobChild: a fresh process in which nobody has registered the nested types with encoding/gob; n goroutines, released
-// together, make the first Gob calls of the process. Prints one result per goroutine.
+// together, make the first Gob calls of the process - and n more make the first calls of a number of other entry points
+// (decoders, the formatted sequence decoder, BeautifyXml, encoders, queries). Prints one result per goroutine.
 func C17GobChild(n int) {
 	res := make([]string, n)
+	first := make([]string, n)
 	start := make(chan struct{})
 	var wg sync.WaitGroup
 	for g := 0; g < n; g++ {
@@ -440,9 +442,29 @@ func C17GobChild(n int) {
 			back, e2 := mxj.NewMapGob(b)
 			res[g] = fmt.Sprint("ok ", jv.Fp(back) == jv.Fp(pm), e2)
 		}(g)
+		// ... and the first call in this process of a number of other entry points (whatever they initialise lazily)
+		wg.Add(1)
+		go func(g int) {
+			defer wg.Done()
+			<-start
+			doc := []byte("<r a='1'>\n <k>v</k>\n <k n:b='2'>3.5</k>\n <!-- c -->\n</r>")
+			s1, e1 := mxj.NewMapFormattedXmlSeq(doc)
+			b2, e2 := mxj.BeautifyXml(doc, "", " ")
+			m3, e3 := mxj.NewMapXml(doc, true)
+			x4, e4 := m3.XmlIndent("", "  ")
+			m5, e5 := mxj.NewMapJson([]byte(`{"a":[1,{"b":"<&>"}]}`))
+			j6, e6 := m5.Json(true)
+			v7, e7 := m3.ValuesForPath("r.k[1].#text")
+			l8 := m3.LeafPaths()
+			sort.Strings(l8)
+			first[g] = fmt.Sprint(jv.Fp(s1), e1, string(b2), e2, jv.Fp(m3), e3, string(x4), e4, string(j6), e5, e6, jv.Fp(v7), e7, l8)
+		}(g)
 	}
 	close(start)
 	wg.Wait()
+	for g := range res {
+		res[g] += " | " + fmt.Sprint(core.HashStr(first[g]))
+	}
 	b, _ := json.Marshal(res)
 	fmt.Println("C17CHILD " + string(b))
 }
